@@ -27,6 +27,9 @@ pub struct Case {
     pub seq: Seq,
     pub fill: Fill,
     pub tag: u64,
+    /// Auth modes: the sender's identity key pair IS the recipient's key pair (a party sealing to itself)
+    #[serde(default)]
+    pub self_addressed: bool,
 }
 
 pub struct C01;
@@ -81,13 +84,17 @@ impl Part for C01 {
                             pt_lens.extend_from_slice(&LEN_BIG);
                         }
                         let aad_lens = if t { vec![0, 1, 15, 16, 17, 64] } else { vec![0, 1, 17] };
-                        v.push(Case { suite, mode, info_len, psk_len, psk_id_len, seq: Seq::Grid { pt_lens, aad_lens }, fill, tag });
+                        v.push(Case { suite, mode, info_len, psk_len, psk_id_len, seq: Seq::Grid { pt_lens, aad_lens }, fill, tag, self_addressed: false });
                     }
+                }
+                if mode.has_auth() && suite.kdf == suite.kem.kdf() {
+                    tag += 1;
+                    v.push(Case { suite, mode, info_len: 5, psk_len: if mode.has_psk() { 32 } else { 0 }, psk_id_len: if mode.has_psk() { 3 } else { 0 }, seq: Seq::Short(vec![(7, 2), (0, 0)]), fill: Fill::Mix, tag, self_addressed: true });
                 }
                 // dense length sweep for one (KEM, KDF) pair per AEAD
                 if suite.kem == crate::refmodel::Kem::X25519 && suite.kdf == crate::refmodel::Kdf::Sha256 && (mode == Mode::Base || t) {
                     tag += 1;
-                    v.push(Case { suite, mode, info_len: 7, psk_len: if mode.has_psk() { 32 } else { 0 }, psk_id_len: if mode.has_psk() { 5 } else { 0 }, seq: Seq::Dense { n: if t { 2200 } else { 1100 } }, fill: Fill::Mix, tag });
+                    v.push(Case { suite, mode, info_len: 7, psk_len: if mode.has_psk() { 32 } else { 0 }, psk_id_len: if mode.has_psk() { 5 } else { 0 }, seq: Seq::Dense { n: if t { 2200 } else { 1100 } }, fill: Fill::Mix, tag, self_addressed: false });
                 }
                 // short sequences: every shape at positions 0,1,2 after every other shape
                 let do_short = t || (suite.kem == crate::refmodel::Kem::X25519 && suite.kdf == crate::refmodel::Kdf::Sha384)
@@ -96,7 +103,7 @@ impl Part for C01 {
                     for s in short_seqs() {
                         tag += 1;
                         let (pl, il) = if mode.has_psk() { (32, 22) } else { (0, 0) };
-                        v.push(Case { suite, mode, info_len: 20, psk_len: pl, psk_id_len: il, seq: Seq::Short(s), fill: Fill::Mix, tag });
+                        v.push(Case { suite, mode, info_len: 20, psk_len: pl, psk_id_len: il, seq: Seq::Short(s), fill: Fill::Mix, tag, self_addressed: false });
                     }
                 }
             }
@@ -106,7 +113,11 @@ impl Part for C01 {
     fn run(&self, cfg: &Cfg, c: &Case) -> CaseOut {
         let mut out = CaseOut::new();
         let ops = suite_ops(c.suite);
-        let k = keys(c.suite.kem, c.tag, cfg.seed);
+        let mut k = keys(c.suite.kem, c.tag, cfg.seed);
+        if c.self_addressed {
+            k.sk_s = k.sk_r.clone();
+            k.pk_s = k.pk_r.clone();
+        }
         let info = bytes(c.fill, c.info_len, 10, cfg.seed);
         let psk = bytes(c.fill, c.psk_len, 11, cfg.seed ^ 0xabcd);
         let psk_id = bytes(c.fill, c.psk_id_len, 12, cfg.seed ^ 0x1234);
